@@ -81,9 +81,197 @@ pub fn run(ctx: Ctx) -> Report {
 pub fn meta() -> CheckMeta {
     CheckMeta {
         level: "exploration",
-        rule: "each case = one client/server Session pair over two seeded MemPipes (capacity, write/read fragmentation, spurious Pending), 1-8 streams, per stream and direction a chunk-size sequence from a boundary-heavy pool (0,1,7,8,8192,16384,65535,65536,70000,131072,200000,...), one of 3 submission paths and 3 read paths, optional random padding scheme and random sched-point yields; in about a quarter of the streams one side ends its direction (FIN) after its last chunk and the other side writes its data only after that FIN has been processed (a FIN ends one direction only: the open direction must still deliver every byte); every byte read is compared online with the position-addressable pattern written at that offset; completeness and 'nothing more' are checked at quiescence under virtual time. distinct_nontrivial counts distinct (chunk sequences, APIs, pipe configs) whose transport fragments frames or that contain a chunk above one frame.".into(),
+        rule: "each case = one client/server Session pair over two seeded MemPipes (capacity, write/read fragmentation, spurious Pending), 1-8 streams, per stream and direction a chunk-size sequence from a boundary-heavy pool (0,1,7,8,8192,16384,65535,65536,70000,131072,200000,...), one of 3 submission paths and 3 read paths, optional random padding scheme and random sched-point yields; in about a quarter of the streams one side ends its direction (FIN) after its last chunk and the other side writes its data only after that FIN has been processed (a FIN ends one direction only: the open direction must still deliver every byte); every byte read is compared online with the position-addressable pattern written at that offset; completeness and 'nothing more' are checked at quiescence under virtual time. distinct_nontrivial counts distinct (chunk sequences, APIs, pipe configs) whose transport fragments frames or that contain a chunk above one frame. End to end: real Client -> real Server with its default TCP handler -> loopback target; uploads of 1 byte to 6 MB (thorough 20 MB) in chunks of 1000-200000 bytes through write_data_frame, ended by a FIN on the stream / by closing the session right after the last write returned / by dropping the whole client, towards a target that starts reading at once or after 400 ms: the target must receive exactly the uploaded bytes (length and FNV hash).".into(),
         assumptions: vec!["tokio's paused clock only advances when every task is idle, so 'still waiting after 3600 virtual s' means blocked forever".into(), "streams are never closed in this workload (C08 covers closing)".into()],
-        floors: vec![("bytes_compared", 1_000_000), ("witness_cases", 40), ("cases_with_chunk_above_65535", 5), ("cases_with_empty_chunk", 20), ("streams_with_one_direction_ended_first", 100)],
+        floors: vec![("bytes_compared", 1_000_000), ("witness_cases", 40), ("cases_with_chunk_above_65535", 5), ("cases_with_empty_chunk", 20), ("streams_with_one_direction_ended_first", 100), ("e2e_uploads_checked", 20)],
         exhaustive: false,
     }
+}
+
+// ---------------------------------------------------------------------------
+// end to end: the real Client, the real Server with its default TCP handler, a loopback target. What was
+// accepted by the tunnel before the uploading side went away must reach the target, all of it, however the
+// upload ends and however slow the target is.
+
+pub fn run_e2e(ctx: Ctx) -> Report {
+    use crate::engine;
+    use crate::netkit::{self, Target};
+    use crate::prng::Pattern;
+    use bytes::Bytes;
+    use serde_json::json;
+    use std::sync::{Arc, Mutex};
+    use std::time::Duration;
+    use tokio::io::AsyncReadExt;
+    let quick = ctx.tier == Tier::Quick;
+    let seed = ctx.seed;
+    run::case_begin("C01 e2e");
+    let mut rep = run::rt_block_on(8, async move {
+        let mut rep = Report::new("C01");
+        let Some((server_addr, _sh)) = netkit::start_server(netkit::PASSWORD, engine::default_padding()).await else {
+            rep.inconclusive("cannot start server");
+            return rep;
+        };
+        let Some(mut target) = Target::bind_v4(0).await else {
+            rep.inconclusive("cannot bind target");
+            return rep;
+        };
+        let tport = target.port;
+        // target: per connection (told apart by the dialled address) wait, then read to the end
+        let got: Arc<Mutex<std::collections::HashMap<std::net::SocketAddr, (u64, u64, bool)>>> = Arc::new(Mutex::new(Default::default()));
+        let delays: Arc<Mutex<std::collections::HashMap<std::net::SocketAddr, u64>>> = Arc::new(Mutex::new(Default::default()));
+        {
+            let got = got.clone();
+            let delays = delays.clone();
+            tokio::spawn(async move {
+                while let Some(a) = target.rx.recv().await {
+                    let got = got.clone();
+                    let delay = delays.lock().unwrap().get(&a.dialled).copied().unwrap_or(0);
+                    tokio::spawn(async move {
+                        let mut s = a.stream;
+                        tokio::time::sleep(Duration::from_millis(delay)).await;
+                        let mut buf = vec![0u8; 65536];
+                        let mut n_total = 0u64;
+                        let mut h = 0xcbf29ce484222325u64;
+                        let mut eof = false;
+                        loop {
+                            match tokio::time::timeout(Duration::from_secs(30), s.read(&mut buf)).await {
+                                Ok(Ok(0)) => {
+                                    eof = true;
+                                    break;
+                                }
+                                Ok(Ok(n)) => {
+                                    for b in &buf[..n] {
+                                        h = (h ^ *b as u64).wrapping_mul(0x100000001b3);
+                                    }
+                                    n_total += n as u64;
+                                    got.lock().unwrap().insert(a.dialled, (n_total, h, false));
+                                }
+                                _ => break,
+                            }
+                        }
+                        got.lock().unwrap().insert(a.dialled, (n_total, h, eof));
+                    });
+                }
+            });
+        }
+        #[derive(Clone, Debug)]
+        struct Case {
+            uniq: u32,
+            size: usize,
+            delay_ms: u64,
+            /// 0 = FIN on the stream, session stays; 1 = session.close() right after the last write returned;
+            /// 2 = the whole client (sessions and all) is dropped right after the last write returned
+            ending: u8,
+            chunk: usize,
+        }
+        let mut rng = Rng::new(seed ^ 0xE01);
+        let mut cases = Vec::new();
+        let sizes: Vec<usize> = if quick { vec![1, 70_000, 1_500_000, 6_000_000] } else { vec![1, 7, 70_000, 300_000, 1_500_000, 6_000_000, 20_000_000] };
+        let mut uniq = 0u32;
+        for rep_i in 0..if quick { 1 } else { 6 } {
+            for &size in &sizes {
+                for delay_ms in [0u64, 400] {
+                    for ending in 0..3u8 {
+                        uniq += 1;
+                        let _ = rep_i;
+                        cases.push(Case { uniq, size, delay_ms, ending, chunk: *rng.pick(&[1000usize, 16_384, 65_535, 200_000]) });
+                    }
+                }
+            }
+        }
+        let results: Arc<Mutex<Vec<(Case, Result<(u64, u64, bool), String>, u64)>>> = Arc::new(Mutex::new(Vec::new()));
+        {
+            let results = results.clone();
+            let got = got.clone();
+            let delays = delays.clone();
+            netkit::for_each_limited(cases, 4, move |c| {
+                let results = results.clone();
+                let got = got.clone();
+                let delays = delays.clone();
+                let server_addr = server_addr.clone();
+                async move {
+                    let ip = netkit::uniq_ip(61, c.uniq);
+                    let dest = std::net::SocketAddr::new(ip.into(), tport);
+                    delays.lock().unwrap().insert(dest, c.delay_ms);
+                    let pat = Pattern::new(seed, c.uniq as u64, 0);
+                    let mut want_h = 0xcbf29ce484222325u64;
+                    let r: Result<(), String> = async {
+                        let client = netkit::make_client(&server_addr, netkit::PASSWORD, engine::default_padding(), netkit::quiet_pool());
+                        let (stream, session) = tokio::time::timeout(Duration::from_secs(20), client.create_proxy_stream((ip.to_string(), tport))).await.map_err(|_| "open timeout".to_string())?.map_err(|e| format!("open failed: {e}"))?;
+                        let mut off = 0usize;
+                        while off < c.size {
+                            let n = c.chunk.min(c.size - off);
+                            let data = pat.make(off as u64, n);
+                            for b in &data {
+                                want_h = (want_h ^ *b as u64).wrapping_mul(0x100000001b3);
+                            }
+                            tokio::time::timeout(Duration::from_secs(30), session.write_data_frame(stream.id(), Bytes::from(data))).await.map_err(|_| format!("write blocked for 30 s at offset {off}"))?.map_err(|e| format!("write failed at offset {off}: {e}"))?;
+                            off += n;
+                        }
+                        match c.ending {
+                            0 => {
+                                session.write_control_frame(anytls_rs::protocol::Frame::control(anytls_rs::protocol::Command::Fin, stream.id())).await.map_err(|e| format!("FIN: {e}"))?;
+                            }
+                            1 => {
+                                let _ = tokio::time::timeout(Duration::from_secs(10), session.close()).await;
+                            }
+                            _ => {
+                                client.stop_session_pool_cleanup().await;
+                                let _ = tokio::time::timeout(Duration::from_secs(10), session.close()).await;
+                                drop(stream);
+                                drop(session);
+                                drop(client);
+                            }
+                        }
+                        Ok(())
+                    }
+                    .await;
+                    // wait until the target saw the end of the upload (or nothing moves any more)
+                    let t0 = tokio::time::Instant::now();
+                    let mut last = (0u64, 0u64, false);
+                    let mut last_change = tokio::time::Instant::now();
+                    while t0.elapsed() < Duration::from_secs(40) {
+                        let cur = got.lock().unwrap().get(&dest).copied().unwrap_or((0, 0, false));
+                        if cur != last {
+                            last = cur;
+                            last_change = tokio::time::Instant::now();
+                        }
+                        if cur.2 || last_change.elapsed() > Duration::from_secs(6) {
+                            break;
+                        }
+                        tokio::time::sleep(Duration::from_millis(20)).await;
+                    }
+                    results.lock().unwrap().push((c, r.map(|_| last), want_h));
+                }
+            })
+            .await;
+        }
+        let results = std::mem::take(&mut *results.lock().unwrap());
+        for (c, r, want_h) in results {
+            let ending = ["fin_on_stream", "session_closed_after_last_write", "client_dropped_after_last_write"][c.ending as usize];
+            let case = json!({"kind": "c01-e2e", "size": c.size, "chunk": c.chunk, "target_read_delay_ms": c.delay_ms, "ending": ending, "seed": seed.to_string()});
+            rep.case(Some(hash_str(&case.to_string())));
+            match r {
+                Err(e) => rep.inconclusive(format!("e2e upload {:?}: {e}", case)),
+                Ok((n, h, eof)) => {
+                    rep.add("e2e_uploads_checked", 1);
+                    rep.add("e2e_bytes_compared", n);
+                    let cause = format!("e2e+{ending}{}", if c.delay_ms > 0 { "+slow_target" } else { "" });
+                    if n != c.size as u64 {
+                        rep.violate("mux", &cause, if n < c.size as u64 { "upload_truncated_at_target" } else { "extra_bytes" }, format!("real Client -> Server (default TCP handler) -> loopback target: {} bytes were accepted by write_data_frame in chunks of {} before the upload ended ({ending}); the target (starts reading after {} ms) received {n} bytes{}", c.size, c.chunk, c.delay_ms, if eof { " and then end of stream" } else { " and no end of stream" }), case);
+                    } else if h != want_h {
+                        rep.violate("mux", &cause, "content_mismatch", format!("the target received {n} bytes, as many as were uploaded, but not the same bytes"), case);
+                    }
+                }
+            }
+        }
+        rep
+    });
+    for p in run::panic_log() {
+        if !run::is_harness_panic(&p) {
+            rep.violate("mux", "e2e", "panic", p, serde_json::json!({}));
+        }
+    }
+    run::case_end();
+    rep
 }
